@@ -27,6 +27,8 @@ func init() {
 		Old: "return errors.Is(err, parse.ErrNotSupportedExpr) || errors.Is(err, parse.ErrNotImplemented)", New: "return errors.Is(err, parse.ErrNotSupportedExpr)", Expect: "V6"})
 	mutant(Mutant{Rule: "R-VOCAB", Name: "counter-not-bumped-on-fallback", File: "engine/engine.go",
 		Old: "\tif e.triggerFallback(err) {\n\t\te.queries.WithLabelValues(\"true\").Inc()\n\t\treturn e.prom.NewRangeQuery(", New: "\tif e.triggerFallback(err) {\n\t\treturn e.prom.NewRangeQuery(", Expect: "V7"})
+	mutant(Mutant{Rule: "R-VOCAB", Name: "instant-fast-path-bypasses-fallback-gate", File: "engine/engine.go",
+		Old: "\tlplan := logicalplan.New(expr, ts, ts)\n", New: "\tif expr.Type() == parser.ValueTypeString {\n\t\treturn e.prom.NewInstantQuery(q, opts, qs, ts)\n\t}\n\tlplan := logicalplan.New(expr, ts, ts)\n", Expect: "V7"})
 	mutant(Mutant{Rule: "R-VOCAB", Name: "param-not-planned", File: "execution/execution.go",
 		Old: "\t\tif e.Param != nil {\n\t\t\tparamOp, err = newOperator(e.Param, storage, opts, hints)\n\t\t\tif err != nil {\n\t\t\t\treturn nil, err\n\t\t\t}\n\t\t}\n", New: "", Expect: "V4"})
 }
@@ -910,6 +912,43 @@ func checkCounterPaths(p *core.Program, fn *ssa.Function, entry string, add func
 		}
 	}
 	walk(newCall.Block(), core.InstrIndex(newCall)+1, nil, map[*ssa.BasicBlock]bool{})
+	// a query is only ever returned on a path through the planning call: every return of a non-nil query is reachable
+	// from (and hence counted after) execution.New, and the embedded engine is consulted only when triggerFallback says so
+	core.EachInstr(fn, func(b *ssa.BasicBlock, i int, ins ssa.Instruction) {
+		ret, ok := ins.(*ssa.Return)
+		if !ok || b == fn.Recover {
+			return
+		}
+		rs := core.RetResults(ret)
+		if len(rs) != 2 || core.IsNilConst(rs[0]) {
+			return
+		}
+		if !(b == newCall.Block() || core.Reaches(newCall.Block(), b)) || !core.BlockDominates(newCall.Block(), b) {
+			add("V7 "+entry+" returns a query only after planning", p.Pos(ret.Pos()), core.FuncName(fn), core.Violated, "a query is returned on a path that bypasses execution.New, triggerFallback and the query counter: with fallback disabled an unsupported construct is accepted, and the query is not counted")
+		}
+	})
+	core.EachInstr(fn, func(b *ssa.BasicBlock, i int, ins ssa.Instruction) {
+		c, ok := ins.(*ssa.Call)
+		if !ok || !strings.HasPrefix(core.CalleeName(&c.Call), "(*"+pkgPromql+".Engine).New") {
+			return
+		}
+		gated := false
+		for _, gb := range fn.Blocks {
+			iff := core.IfOf(gb)
+			if iff == nil {
+				continue
+			}
+			if tc, ok := iff.Cond.(*ssa.Call); ok && tc.Call.StaticCallee() != nil && tc.Call.StaticCallee().Name() == "triggerFallback" && core.BranchDominates(gb, 0, b) {
+				gated = true
+			}
+		}
+		key := "V7 " + entry + " consults the embedded engine only under triggerFallback"
+		if gated {
+			add(key, p.Pos(c.Pos()), core.FuncName(fn), core.Held, "the call is on the true branch of triggerFallback(err)")
+		} else {
+			add(key, p.Pos(c.Pos()), core.FuncName(fn), core.Violated, "the embedded Prometheus engine creates the query on a path that did not ask triggerFallback: DisableFallback is not honoured there")
+		}
+	})
 	if npaths == 0 {
 		add("V7 "+entry+" counter", "-", core.FuncName(fn), core.Lost, "no path from execution.New to a return")
 	}
